@@ -61,6 +61,9 @@ CHECKS = {
  "C11": ("clustermc", "explicit-state BFS over the real reconcilers; monitor on every BatchRelease status write against the pods in the store at that instant, and on every settled state",
          "Ready is reported only when the pods in the store satisfy the batch (updated >= planned, ready within threshold, >=1 ready); currentBatch never exceeds batchPartition; Completed only after the control annotation is gone (and all pods updated+ready under WaitResume); after a degrade / scale / plan edit no settled state keeps Ready while the workload no longer satisfies it.",
          "Same trusted base as C01.", "DESIGN.md §4 C11"),
+ "C19": ("schedmc", "CHESS-style bounded-preemption enumeration of ALL schedules (cooperative scheduler, depth-first over choice prefixes, preemption bound 0,1(,2)) of two Rollouts finalising concurrently through the real trafficrouting.Manager and the real process-global grace registry (sync shim injected by build overlay, every API call a scheduling point, virtual clock), differential oracle against the solo run; plus an auxiliary, sampled free-running -race stage",
+         "Two Rollouts (two namespaces sharing Service/Ingress names; one namespace with similar names; heterogeneous grace periods 1s/3s and 0s/2s; every start offset) each repeatedly call the real FinalisingTrafficRouting until done: in every schedule within the bound each Rollout ends in the same store projection, performs the same writes and keeps every grace-bounded gap between dependent writes at least as long as when run alone; no deadlock, no panic. 48,904 schedules in quick (bound 1 everywhere, 2 on the small variant), 1.77 M in thorough (bound 2, 3 on the small variant). Data-race freedom cannot be decided by a cooperative scheduler: the same bodies run free on 8 goroutines under the Go race detector (1,200 finalisations) as an explicitly sampled stage; a race report with a repository frame is a violation.",
+         "Trusted: controller-runtime fake client, the sync shim (falls back to plain sync when no exploration is active). Only FinalisingTrafficRouting is driven; lengthened waits are not violations.", "DESIGN.md §4 C19"),
  "C20": ("e3", "exhaustive bounded-domain enumeration of objects through the real ConvertTo/ConvertFrom with a round-trip (relational) oracle",
          "Every v1alpha1 Rollout/BatchRelease and every v1alpha1-expressible canary v1beta1 object of a finite product domain (all optional blocks nil/empty/present, 0-2 steps over a step alphabet, every provider, style annotations incl. garbage, status cursors) is converted by the real code; no panic/error, and the normalised round trip is the identity. Exhaustive within the stated domain, nothing sampled.",
          "Trusted: the hand-written 'same meaning' normaliser (absent == empty block, weight-only step == replicas w%, style by annotation) and the hand-encoded schema admissibility.", "DESIGN.md §4 C20"),
